@@ -63,3 +63,10 @@ func specHexDigit(x byte, j int) byte {
 //@ loop 1 invariant 0 <= n && n + len(b) == len(old(b)) && ref(b) == ref(old(b)) && off(b) == off(old(b)) + n
 //@ loop 2 invariant -1 <= i && i < l && l <= len(b)
 //@ loop 2 decreases i + 1
+
+// C13: a read fault of the underlying reader (an error other than io.EOF, or
+// other than a short read for io.ReadFull; ghost flag rfault()) during a call
+// of Read is returned by that call.
+//@ func (*pfbReader).Read
+//@ ensures [C13.pfb.fault] !old(rfault()) && rfault() ==> result1 != nil
+//@ loop 1 invariant [C13.pfb.fault] !old(rfault()) ==> !rfault()
